@@ -221,6 +221,38 @@ def run(chk):
                      f"state_gradient deviates from central finite differences by {worst:.2e} at entry {where} ({len(ops)} environment(s), "
                      f"{shape} parameter table, {info['derivatives']} propagator derivatives)", info)
 
+    # ---- the same ParameterizedSystem object with process tensors of two different time steps (a convergence check in dt):
+    # the second gradient must be what a fresh system gives ---------------------------------------------------------------
+    for it in range(4 if thorough else 1):
+        sm_ = oqupy.operators.sigma("-")
+        mk_sys = lambda: oqupy.ParameterizedSystem(lambda x, y: x * sx + y * sz, gammas=[lambda x, y: 0.1 + 0.05 * x * x],
+                                                   lindblad_operators=[lambda x, y: np.cos(y) * sm_ + 0.5 * np.sin(y) * sz])
+        shared = mk_sys()
+        rho0 = oqupy.operators.spin_dm("x+")
+        target = oqupy.operators.spin_dm("y+").T.copy()
+        worst, info = 0.0, {"kind": "same-system-two-dt"}
+        try:
+            for dt_ in (0.2, 0.1):
+                N = 3
+                par = oqupy.TempoParameters(dt=dt_, epsrel=1e-7, dkmax=3)
+                pt_ = quiet(oqupy.pt_tempo_compute, oqupy.Bath(0.5 * sz, oqupy.PowerLawSD(alpha=0.2, zeta=1, cutoff=2.0, cutoff_type="exponential")),
+                            0.0, N * dt_, parameters=par, progress_type="silent")
+                params = np.array([[0.4, 0.2 - 0.05 * (k // 2)] for k in range(2 * N)])        # a constant first column: rows repeat across the runs
+                g_shared = np.array(quiet(oqupy.state_gradient, system=shared, initial_state=rho0, target_derivative=target, process_tensors=[pt_],
+                                          parameters=params.copy(), progress_type="silent")["gradient"])
+                g_fresh = np.array(quiet(oqupy.state_gradient, system=mk_sys(), initial_state=rho0, target_derivative=target, process_tensors=[pt_],
+                                         parameters=params.copy(), progress_type="silent")["gradient"])
+                worst = max(worst, np.abs(g_shared - g_fresh).max() / max(1e-12, np.abs(g_fresh).max()))
+        except Exception as ex:
+            chk.fail("gradient-raises", f"state_gradient raises {ex!r}", info)
+            continue
+        chk.search_cases += 1
+        chk.count("same_system_two_dt")
+        chk.case(info, ("twodt", it))
+        if worst > 1e-8:
+            chk.fail("gradient-depends-on-earlier-use", f"state_gradient with a ParameterizedSystem that was used before with another time step differs from a fresh "
+                     f"system by a relative {worst:.2e}", info)
+
     return chk.finish(
         level="proof",
         trusted=["models: Model/PT.v + Model/Dyn.v (objective), adjoint tensor defined as the objective at unit matrices",
